@@ -64,8 +64,20 @@ def build(cls: str, host_cls: Optional[str], host_fn: str, posable: List[str], n
         desc[k] = d
     lines = [IMPORTS]
     names = sorted({d[1] for d in desc.values() if d[0] == "var"})
-    for j, n in enumerate(names):
-        lines.append(f"{n} = analog_read('A{j % 6}')")
+    if zero is not None and "__const_env__" in zero:
+        # the arguments are variables that hold a known constant and are re-assigned under a run-time branch: what the IR
+        # carries must still be the variable (a number would have been folded from the flow-insensitive environment)
+        lines.append("z_probe = analog_read('A5')")
+        for j, n in enumerate(names):
+            lines.append(f"{n} = {21 + j}")
+        lines.append("if z_probe > 5:")
+        for j, n in enumerate(names):
+            lines.append(f"    {n} = {121 + j}")
+        if not names:
+            lines.append("    z_probe = 0")
+    else:
+        for j, n in enumerate(names):
+            lines.append(f"{n} = analog_read('A{j % 6}')")
     if any(d == ("lit", "handler") for d in desc.values()):
         lines.append("def handler():\n    sleep(1)")
     call_args = ", ".join(args)
